@@ -44,9 +44,23 @@ def _num(ip, node, v):
 
 # -- math ------------------------------------------------------------------------
 
+def _sum_of_squares(t):
+    """syntactic: t is a sum of terms each of which is a product u*u (or a non-negative numeral)"""
+    if z3.is_rational_value(t) or z3.is_int_value(t):
+        return not str(t).startswith('-')
+    k = t.decl().kind()
+    if k == z3.Z3_OP_ADD:
+        return all(_sum_of_squares(c) for c in t.children())
+    if k == z3.Z3_OP_MUL and t.num_args() == 2:
+        return t.arg(0).eq(t.arg(1))
+    return False
+
+
 def _uf1(name):
     def h(ip, args, kwargs, st, node):
         x = _num(ip, node, args[0])
+        if name == 'sqrt' and is_sym(x) and _sum_of_squares(x.t):
+            return mm.uf_apply(ip.ctx, name, x)       # a sum of squares is non-negative: no domain obligation
         if name == 'sqrt':
             neg = mm.compare('<', x, 0)
             if neg is True:
